@@ -35,15 +35,18 @@ Follow == <<
   Fr(2, CatCol(<<"y", "y">>, {}, <<"y">>, TRUE), NumCol(<<7, 8>>, {})) >>                                   \* a single declared category
 FollowOf(t, u) == IF u = 0 THEN Train[t] ELSE Follow[u]
 
-Num(e, col) == [e |-> e, kind |-> "num", col |-> col, contr |-> "", lit |-> 1, shift |-> 0, forced |-> FALSE]
-Cat(e, col, contr, forced) == [e |-> e, kind |-> "cat", col |-> col, contr |-> contr, lit |-> 1, shift |-> 0, forced |-> forced]
-Lit(n) == [e |-> ToString(n), kind |-> "lit", col |-> "", contr |-> "", lit |-> n, shift |-> 0, forced |-> FALSE]
+Num(e, col) == [e |-> e, kind |-> "num", col |-> col, contr |-> "", lit |-> 1, shift |-> 0, forced |-> FALSE, pw |-> 1]
+Cat(e, col, contr, forced) == [e |-> e, kind |-> "cat", col |-> col, contr |-> contr, lit |-> 1, shift |-> 0, forced |-> forced, pw |-> 1]
+Lit(n) == [e |-> ToString(n), kind |-> "lit", col |-> "", contr |-> "", lit |-> n, shift |-> 0, forced |-> FALSE, pw |-> 1]
 a == Num("a", "a")  A == Cat("A", "A", "treatment", FALSE)
 CS == Cat("C(A, contr.sum)", "A", "sum", TRUE)  CH == Cat("C(A, contr.helmert)", "A", "helmert", TRUE)
 Ctr == Num("center(a)", "a")
+Csq == [Num("I(center(a) * center(a))", "a") EXCEPT !.pw = 2]
 I1 == <<Lit(1)>>
-Formulas == << <<I1, <<A>>>>, <<<<A>>>>, <<I1, <<A>>, <<a>>>>, <<I1, <<A, a>>>>, <<<<A, a>>>>, <<I1, <<CS>>>>, <<I1, <<CH>>, <<Ctr>>>>, <<I1, <<Ctr>>>>, <<I1, <<a>>, <<Lit(2), A>>>> >>
-FormulaText == << "A", "0 + A", "A + a", "A:a", "0 + A:a", "C(A, contr.sum)", "C(A, contr.helmert) + center(a)", "center(a)", "a + 2:A" >>
+Formulas == << <<I1, <<A>>>>, <<<<A>>>>, <<I1, <<A>>, <<a>>>>, <<I1, <<A, a>>>>, <<<<A, a>>>>, <<I1, <<CS>>>>, <<I1, <<CH>>, <<Ctr>>>>, <<I1, <<Ctr>>>>, <<I1, <<a>>, <<Lit(2), A>>>>,
+              <<I1, <<Csq>>>>, <<I1, <<A>>, <<Csq, A>>>> >>
+FormulaText == << "A", "0 + A", "A + a", "A:a", "0 + A:a", "C(A, contr.sum)", "C(A, contr.helmert) + center(a)", "center(a)", "a + 2:A",
+                 "I(center(a) * center(a))", "A + I(center(a) * center(a)):A" >>
 
 VARIABLES t, u, fid, sel
 vars == <<t, u, fid, sel>>
@@ -52,7 +55,7 @@ SumSeq(q) == IF q = <<>> THEN 0 ELSE Head(q) + SumSeq(Tail(q))
 MeanA(frame) == SumSeq(frame.cols["a"].num) \div frame.n        \* training frames are chosen with an integral mean
 \* the formula with the statistics recorded at fit time
 Fitted(f) == [i \in DOMAIN Formulas[f] |-> [j \in DOMAIN Formulas[f][i] |->
-                IF Formulas[f][i][j].e = "center(a)" THEN [Formulas[f][i][j] EXCEPT !.shift = MeanA(Train[t])] ELSE Formulas[f][i][j]]]
+                IF Formulas[f][i][j].e \in {"center(a)", "I(center(a) * center(a))"} THEN [Formulas[f][i][j] EXCEPT !.shift = MeanA(Train[t])] ELSE Formulas[f][i][j]]]
 Form == Fitted(fid)
 Opts == [full_rank |-> TRUE, na |-> "drop", cluster |-> FALSE]
 KeptT == M!Kept(Train[t], M!DropSet(Train[t], <<Form>>, "drop", {}))
